@@ -209,4 +209,9 @@ pub fn run(g: &mut Global) {
         &check,
     );
     g.random("random", g.tier.pick(20_000, 500_000), &random_strategy, &check);
+    if g.tier == Tier::Thorough {
+        // raw 64-bit patterns under libFuzzer's comparison tracing: the only generator here that can hit a
+        // single magic bit pattern (a sentinel NaN payload, say)
+        g.fuzz_stage("ops_pred", Some(5), 4_000_000, "random", &|b| crate::fuzzdec::decode_c16(b), &check);
+    }
 }
